@@ -1228,7 +1228,7 @@ def transform(fn, proceed, to_instrument=True, set_conformer=True):
     new_fn = _compile(filename, new_tree, freevars)
 
     fname = fn.__name__
-    save = glb.get(fname, None)
+    save = glb.get(fname, ABSENT)
 
     try:
         from codefind import code_registry
@@ -1310,7 +1310,11 @@ def transform(fn, proceed, to_instrument=True, set_conformer=True):
     glb[fnsym] = actual_fn
 
     # However, we don't want to change the existing mapping of fn
-    glb[fname] = save
+    if save is ABSENT:
+        # e.g. a method or a nested function: there was no such global
+        glb.pop(fname, None)
+    else:
+        glb[fname] = save
 
     all_vars = transformer.used | transformer.assigned
 
